@@ -15,7 +15,7 @@ CHECKS = {
             "equal that of loads(text) and must not depend on the line ends (plus 24 long lyrics files of dense 2-, 3- and 4-byte characters x 8 paddings, so that every 512-byte block boundary falls inside a character in some variant); x 10 option sets: the bytes dump writes (also into missing nested directories) must decode to dumps' "
             "string; the CLI is run as a subprocess in single-file mode (with and without --output_path), directory mode and recursive directory mode (nested directories, both "
             "suffixes, a file with an import error, unrelated files) in both directions: outputs must equal the API's, exactly the expected files appear, nothing else changes, "
-            "ekern -> kern -> ekern is the identity.",
+            "ekern -> kern -> ekern is the identity. Also one path rewritten between loads (same length, other length, removed and re-created), and the converters applied to files with 1-4 kern spines one after the other in one process (three orders) and through the directory mode (two namings).",
             'Assumes a UTF-8 preferred encoding (set explicitly for the CLI subprocesses). Works in a fresh temporary directory that is removed afterwards.',
             'exhaustive enumeration of the (document x line end x final newline x option set x CLI layout) grid against the in-memory API', 'DESIGN.md §3 C20'),
     'C15': ("21 (thorough 110) documents - core-only (single notes without accidentals over 9 octaves, rests, grace notes, non-kern spines, split/join) and mixed (accidentals, chords) - x all 40 "
@@ -27,13 +27,13 @@ CHECKS = {
             "strings of length <=2 over a 49-character alphabet (thorough: + all length-3 strings over 25 characters; 2.6k / 18k cells per header): import never raises; whether a cell is "
             "shared structure is decided by an independent recogniser (regular expressions from the Humdrum syntax) - then category and export must be those of a **kern spine, otherwise "
             "the token must be verbatim with the spine type's own category (the corpus includes texts that Unicode normalisation, case folding, trimming, escaping or number parsing would change); a shared importer instance must agree with a fresh one. Document level: the same rows under every type give "
-            "the same measure count and barline stages.",
+            "the same measure count and barline stages. Also single documents in which spines of DIFFERENT non-kern types (all ordered pairs, some triples) carry the same cell texts.",
             'Trusted: the recogniser in kv/props/c18.py. Prefix parses (=foo -> =) are a known finding shared with C12.', T_GRID, 'DESIGN.md §3 C18'),
     'C12': ("(a) Every token history up to depth 2 (thorough 3) over 12 valid + 17 malformed tokens on ONE live spine importer of each of 8 spine types, followed by closure of the importer's "
             "reflection-fingerprint graph: the outcome for a token must equal the outcome on a fresh importer. (b) Four skeleton documents (1-3 spines incl. root/dynam/harm/mxhm, a split) x "
             "every placement of one malformed cell x 17 malformed texts, every pair of placements (thorough: every triple on the small skeleton), and a blank line before the damage; "
             "oracle = reference model of the damaged document (one error per malformed kern cell with physical line number and text, other tokens untouched, malformed cells "
-            "verbatim in place) + undamaged twin; where the error list is right, raise_on_errors=True must raise exactly when it is non-empty and name every malformed cell and line.",
+            "verbatim in place) + undamaged twin; where the error list is right, raise_on_errors=True must raise exactly when it is non-empty and name every malformed cell and line. Also mass damage on a giant document: a malformed cell at the very end, the same malformed text 40 times, 300 malformed cells in one import (more than 10 000 kern cells in the thorough tier).",
             'Trusted: kv/model.py, kv/snapshot.py. The prefix-parse class (characters after a valid token are dropped) is a known finding.', T_HIST + ' + ' + T_PATHS, 'DESIGN.md §3 C12'),
     'C14': ("Explicit-state BFS over call histories on a live Document (8 documents quick / 41 thorough, incl. one with import errors, one without measures, one without clef; 70-75 read-only "
             "operations incl. calls that raise): state = reflection snapshot of the document, of every mutable module-level container and class attribute of kernpy, and of every "
@@ -43,56 +43,56 @@ CHECKS = {
             'Trusted: kv/snapshot.py reflection walk (no field names hard-coded; Node.NextID excluded). Graph output compared modulo node identifiers.', T_HIST, 'DESIGN.md §3 C14'),
     'C19': ("Kern-only documents (every row sequence to length 4/3, thorough 5/4, over data, barline, null, clef, split, join; <=1/2 deviations of a backbone) cut at EVERY subset of their "
             "barline rows (<=5 cuts) with both separators; concat's document must equal the import of the joined text (three views), one pair per fragment, pairs consecutive, last 'to' == "
-            "measure count, and exporting pair i must give exactly the data lines of fragment i (the (0,0) pair of a header-only first fragment: none). Blank lines inside fragments and scores with a spine terminated early are included; the measure index is re-read after the exports.",
+            "measure count, and exporting pair i must give exactly the data lines of fragment i (the (0,0) pair of a header-only first fragment: none). Blank lines inside fragments and scores with a spine terminated early are included; the measure index is re-read after the exports. Also a giant score (1 500 rows, 375 measures, more than 64 KiB) cut at boundary positions (first / last barline, 64th, 128th, 256th / 257th).",
             'Fragment data lines are compared in normal form taken from kernpy\'s own full export (C03).', T_PATHS + ' x exhaustive cut sets', 'DESIGN.md §3 C19'),
     'C07': ("Every row sequence up to length 5/4/4/3 (thorough 6/5/5/4) over data, barline, null interpretation, clef row, null data, split, join for 1-3 kern spines (and kern+text exported with "
             "spine_types=['**kern']) plus all <=2 (3) deviations of a backbone score; for each document EVERY range 1<=a<=b<=M, (a,None), (None,b) and eight out-of-range shapes. Oracle: the "
             "full export tiled by its barline rows - data lines of the range byte-identical and in order, opening/closing barline, single-measure exports partition the data lines, "
-            "iteration yields 1..M, ValueError for the out-of-range shapes. Also all sequences to length 6/5 (7/6) over data row, plain numbered barline and global comment (empty measures between equal barlines, comments next to barlines), blank-line variants, long scores (about 30 measures, all 465 ranges), and concurrent / abandoned / nested iterations of the same document.",
+            "iteration yields 1..M, ValueError for the out-of-range shapes. Also all sequences to length 6/5 (7/6) over data row, plain numbered barline and global comment (empty measures between equal barlines, comments next to barlines), blank-line variants, long scores (about 30 measures, all 465 ranges), and concurrent / abandoned / nested iterations of the same document. Also two giant documents (about 1 950 lines, 375 measures, one spine ending early): every single measure and every pair over the boundary values (1, 2, 9-11, 63-65, 99-101, 127-129, 255-258, 299-301, M-2..M); nested iteration is driven with explicit step bounds.",
             'Oracle derived from kernpy\'s own full export (C03 decides that export); indifferent to whether an empty leading measure is numbered.', T_PATHS, 'DESIGN.md §3 C07'),
     'C08': ("Every row sequence up to length 6/5/5/4 over data, barline, uniform clef/key/time rows, first-column-only clef/time rows, split, join for 1-2 kern spines (thorough: 3 spines, "
             "kern next to text) x every measure range (15k quick / 755k thorough excerpts). Each excerpt is labelled by the model's state at its first row; in the claimed core "
             "(and in the partial-signature-row class, repaired in this work) the excerpt must be accepted by the SpineModel acceptor, re-import without errors and carry the same "
-            "(note, clef/key/time in force) sequence as the full score; the other three classes are tracked as known findings symptom by symptom.",
+            "(note, clef/key/time in force) sequence as the full score; the other three classes are tracked as known findings symptom by symptom. Also giant kern-only documents (1 200 / 1 500 rows, a spine ending 150 rows early) x ranges over the boundary values, incl. excerpts of more than 1 024 lines and excerpts starting 1 000 rows below the header.",
             'Trusted: text-level acceptor and context model in kv/props/c08.py (no kernpy call). Class predicate in DESIGN §3 C08.', T_PATHS + '; SpineModel used as acceptor', 'DESIGN.md §3 C08'),
     'C10': ("Pitch level, exhaustive: 7 clefs x 5 octave marks x 7 letters x 5 accidentals x octaves 0..8 through ClefFactory/pitch_to_gkern_string (G2 identity, one-step translation "
             "chained over the whole range, bottom line -> 'e', accidental carried over, octave marks irrelevant, bottom line = the staff's musical bottom line) and 7x3-5x8 one-note "
             "document grids for all accidental spellings incl. natural and display suffix. Document level: every enabled row sequence to depth 3-5 with single-column clef "
-            "changes, splits, joins, chords and rests; each agnostic cell is compared with the model's clef in force for that cell. The relation is also checked under three category filters and through one Exporter instance used for kern, akern, kern, aekern in a row.",
+            "changes, splits, joins, chords and rests; each agnostic cell is compared with the model's clef in force for that cell. The relation is also checked under three category filters and through one Exporter instance used for kern, akern, kern, aekern in a row. Also a clef sweep in ONE process: one-note documents under all 35 clef x octave-mark combinations one after the other in three orders.",
             'Trusted: kv/pitchref.py staff-step arithmetic; kv/model.py signature context (inherited through parent links). Five clefs have a non-musical bottom line pinned by the tests: known findings.',
             T_GRID + ' + ' + T_PATHS, 'DESIGN.md §3 C10'),
     'C13': ("15-88 documents (>=2 spines, >=2 types, split, clef) x every subset of spine ids x every subset of present types x 23 category selections x 6 encodings, each compared "
             "with the composition of the three reference transforms (which commute by construction), plus one explicit-default spelling of an option per case that must be "
-            "string-identical to omitting it, and one re-spelling of an option value in force (reversed, with a repeated member, other container) that must not change the export. Plus the options-object interface with one ExportOptions instance reused for a smaller document first, and skeletons with a spine terminated early.",
+            "string-identical to omitting it, and one re-spelling of an option value in force (reversed, with a repeated member, other container) that must not change the export. Plus the options-object interface with one ExportOptions instance reused for a smaller document first, and skeletons with a spine terminated early. Also a hand-picked option product (13 id sets x 3 type sets x 7 selections x 4 encodings) on ONE Document object for a giant document (1 950 lines), a fourteen-spine document (two-digit ids) and power-of-two-aligned documents; documents with an invisible barline in one column only.",
             'Trusted: kv/model.py reference exporter, kv/pitchref.py; leniencies of DESIGN §2.1.',
             'exhaustive enumeration of the option product on a document family against a reference exporter', 'DESIGN.md §3 C13'),
     'C04': ("For every document of a bounded space (all row sequences to depth 3/4 after a clef row, 9-20 header configurations, <=1/2 deviations of a backbone) and each of 8 category "
             "selections that keep durations or pitches, all six encodings are exported and related: plain == extended minus separators (three pairs), basic == full with the signifier "
-            "group removed note by note (chord sizes from the model), headers == '**'+prefix+type, non-note cells identical in all six. The same relations are checked on measure-range exports; a model-based clause forbids any signifier of the abstract note in a basic cell.",
+            "group removed note by note (chord sizes from the model), headers == '**'+prefix+type, non-note cells identical in all six. The same relations are checked on measure-range exports; a model-based clause forbids any signifier of the abstract note in a basic cell. Also a 680-row document.",
             'Relational oracle between kernpy\'s own outputs; kv/model.py contributes only cell kinds, chord sizes and row alignment.', T_PATHS, 'DESIGN.md §3 C04'),
     'C05': ("37-300 documents containing every cell kind and category x every distinct selected set denoted by the 705x704 (include<=2|None, exclude<=2) pairs (4368 sets), complements of "
             "singles and pairs, and all 2^16 unions of top-level categories; each extended export is compared with T_cat applied to the abstract grid; kernpy's own selected-set "
-            "computation is re-asserted through the option parser. Reuse of one include/exclude OBJECT for consecutive calls and the options-object interface with token_categories reassigned between exports are driven as well.",
+            "computation is re-asserted through the option parser. Reuse of one include/exclude OBJECT for consecutive calls and the options-object interface with token_categories reassigned between exports are driven as well. Also a giant document of 2 100 lines and power-of-two-aligned documents x every single include, every single exclude and a few pairs (DESIGN 10.18).",
             'Trusted: kv/model.py T_cat, kv/catref.py. Leniency: a chord left with only null notes makes its row optional; chord notes may show signifiers of their chord.',
             'exhaustive enumeration of the option grid (reduced to distinct selected sets) on a document family, against a reference exporter', 'DESIGN.md §3 C05'),
     'C01': ("Token level: every abstract note of the stated alphabets (9 durations x 2-5 pitches x 8 accidentals x every signifier set of size <=2 from 37 signifiers; rests; chords) in "
             "EVERY written variant (order, slot before/after duration, pitch, accidental, doubling) - each abstract note must have exactly one normal form, and every normal form must be "
             "a fixed point of import-then-export through the plain route, the separator-stripping route and get_kern_from_ekern. Document level: all row sequences to depth 3/4 and all "
-            "<=2 deviations of a backbone, same differential fixed-point oracle. Cell-corpus pass: every cell of C18's corpus plus every barline with the invisibility flag in four small frames - whenever the frame imports without errors the laws must hold (glued strings in **kern columns, '**' cells and the separator characters are outside the domain); staff-change marks written apart from the mark they combine with (a known finding).",
+            "<=2 deviations of a backbone, same differential fixed-point oracle. Cell-corpus pass: every cell of C18's corpus plus every barline with the invisibility flag in four small frames - whenever the frame imports without errors the laws must hold (glued strings in **kern columns, '**' cells and the separator characters are outside the domain); staff-change marks written apart from the mark they combine with (a known finding). Also documents far beyond the bounds: 680-row documents (137 measures numbered to three digits, 45 split/join cycles).",
             'Differential oracle, no reference model. Alphabet rules of DESIGN §2.7 (X i j Z only without accidental; W and w never together).',
             'bounded-exhaustive enumeration of written variants and of row sequences with a differential fixed-point oracle', 'DESIGN.md §3 C01'),
     'C06': ("Every enabled row sequence up to depth 3-5 (data, barline, every split, every join, every single termination) for 1-4 spines, and for each resulting document every subset "
             "of spine ids (ascending, descending, duplicated, set, tuple), every subset of the header types present and every combination; each export must be string-identical to "
             "kernpy's own full export with the columns of the unselected spines (per the model's column->spine map) deleted and all-null lines dropped; the spine-type query must "
-            "equal the projected header line. Includes a twelve-spine document (two-digit spine ids) with singles, pairs and complements.",
+            "equal the projected header line. Includes a twelve-spine document (two-digit spine ids) with singles, pairs and complements. Also (DESIGN 10.17/10.18): 680-row, giant (1 950 lines) and power-of-two-aligned documents (all three alignments) x every subset; an invisible barline in one column only; one options object re-used with a re-assigned selection.",
             'Trusted: column->spine map of kv/model.py (itself checked against the tree in C02).', T_PATHS, 'DESIGN.md §3 C06'),
     'C17': ("Every enabled row sequence up to depth 3-5 over data, interpretation, field-comment, barline, global-comment rows and every split/join/termination, with and without "
             "pre-header comments; for each document the full listing, 37 single-category filters and a rotating eighth of 143 larger filters are compared with the model's depth-first "
-            "order and documented categories; unique listings, frequencies, encodings listings, comment query (with every prefix of every key present / clear) and monophony are derived and compared; comment layouts: every sequence of <=2/3 of 15 comment lines before the header, inside the score and after the terminators. The previously checked document stays alive and is queried again after the current one (two documents in one process).",
+            "order and documented categories; unique listings, frequencies, encodings listings, comment query (with every prefix of every key present / clear) and monophony are derived and compared; comment layouts: every sequence of <=2/3 of 15 comment lines before the header, inside the score and after the terminators. The previously checked document stays alive and is queried again after the current one (two documents in one process). Also 680-row, giant (1 950 lines, recursion depth, several thousand distinct encodings) and power-of-two-aligned documents with every filter; one filter container edited in place between consecutive queries.",
             'Trusted: kv/model.py depth-first order, kv/alphabet.py documented categories, kv/catref.py closure.', T_PATHS, 'DESIGN.md §3 C17'),
     'C03': ("Every document of a bounded space (all row sequences up to depth 3/4 over data, interpretation, comment, barline, null, split, join, global-comment rows for 9-24 header "
             "configurations; all <=2 (3) edits of a backbone score; every corpus member in every column) is imported and exported in plain and extended form, and the result is "
-            "compared cell by cell with a reference exporter that works on the generator's abstract description of each cell (never on kernpy's parse). Every second document is exported after filtered / basic exports in the same process (non-initial process state); long (66-123 rows) and twelve-spine documents are included.",
+            "compared cell by cell with a reference exporter that works on the generator's abstract description of each cell (never on kernpy's parse). Every second document is exported after filtered / basic exports in the same process (non-initial process state); long (66-123 rows) and twelve-spine documents are included. Also documents far beyond the bounds (DESIGN 10.18): 680-row documents, a giant document of about 1 950 lines with more than 4 600 different kern cells and 64 KiB of text, and documents whose rare rows sit exactly on power-of-two line numbers; chords repeating a signifier on every note.",
             'Trusted: kv/alphabet.py abstract corpora, kv/model.py reference exporter. Leniencies (null placeholder spelling, component order) in DESIGN §2.1.',
             T_PATHS, 'DESIGN.md §3 C03'),
     'C02': ("Lock-step refinement of kernpy's importer against the SpineModel: explicit-state BFS to closure over the merged (layout, implementation fingerprint) "
